@@ -53,12 +53,16 @@ fn main() {
                 }
             };
             let mut f = std::io::BufWriter::new(std::fs::File::create(&a[3]).unwrap());
+            let cur = format!("{}.cur", a[3]);
             for s in &sessions {
+                // progress marker: if this process hangs or aborts, the orchestrator knows where
+                let _ = std::fs::write(&cur, &s.id);
                 for l in exec::run_session(s) {
                     f.write_all(l.as_bytes()).unwrap();
                     f.write_all(b"\n").unwrap();
                 }
             }
+            let _ = std::fs::remove_file(&cur);
         }
         "meta" => {
             if a.len() < 6 {
